@@ -682,6 +682,21 @@ pub fn generate(prop: &str, thorough: bool, rng: &mut Rng, emit: &mut Emit) {
                        "qpack.decode", "huff.dec"] {
                 short_bytes_exhaustive(emit, op, if op == "qpack.decode" || op == "huff.dec" { l } else { l.min(3) }, stride, &[]);
             }
+            // eight-byte varints at the edges of the id ranges (quarter stream ids end at 2^60 - 1,
+            // session / stream ids at 2^62 - 1): accepted values stay in range, the rest is refused
+            for v in [(1u64 << 60) - 2, (1 << 60) - 1, 1 << 60, (1 << 60) + 1, (1 << 61) - 1, 1 << 61, (1 << 62) - 4, (1 << 62) - 1] {
+                let mut b = enc_varint(v);
+                emit("ids.qdgram", vec![s(v)]);
+                emit("varint.dec", vec![hex(&b)]);
+                b.extend([0xaa, 0xbb]);
+                emit("dgram.read", vec![hex(&b)]);
+                let mut sh = vec![0x40, 0x54];
+                sh.extend(enc_varint(v));
+                emit("sh.read", vec![hex(&sh)]);
+                let mut fr = vec![0x40, 0x41];
+                fr.extend(enc_varint(v));
+                emit("frame.read", vec![hex(&fr)]);
+            }
             // structured adversarial
             for _ in 0..600 * scale {
                 let fs = gen_field_section(rng);
